@@ -341,6 +341,9 @@ class Labware:
         label : str
             'first', 'last' or label of the condensed entry (default: label of the last entry in the condensate)
         """
+        if n <= 0:
+            # Nothing to condense. (Note that the slices [:-n] below would drop the entire history for n=0.)
+            return
         if label == "first":
             label = self._labels[len(self._labels) - n]
         if label == "last":
